@@ -10,6 +10,7 @@ EXTENDS AV1, TraceIO
 VARIABLES l, st
 Reason(e) ==
   IF e.res # "ok" THEN "panic"
+  ELSE IF e.empty_res # "err" \/ e.cut_res # "err" THEN "header_parser_accepts_a_header_that_is_not_there"
   ELSE IF Len(e.each) # Len(e.obus) THEN "harness_shape"
   ELSE IF \E i \in 1..Len(e.obus) : e.each[i] # StreamForm(e.obus[i]) THEN "obu_bytes_are_not_the_specified_encoding"
   ELSE IF \E i \in 1..Len(e.obus) : LET r == ReadStream(e.each[i], 1, <<>>) IN ~r.ok \/ r.obus # <<e.obus[i]>> THEN "marshalled_obu_does_not_read_back"
